@@ -1,2 +1,2 @@
-(* tools/py2v translator FAILED on the current source: CallRef._get_value shape (line 1175) *)
+(* tools/py2v translator FAILED on the current source: callback _element: body does not end in a return (or try/return/except KeyError/raise) (line 81) *)
 Definition translator_failed_no_tables : bool := true.
